@@ -196,7 +196,7 @@ public:
       {
         auto& level0 = _wheels[0];
         auto& bucket = level0.buckets[level0.currentTick & _tickMask];
-        collectFromBucket(bucket, toFire);
+        collectFromBucket(bucket, now, toFire);
         level0.currentTick++;
 
         if ((level0.currentTick & _tickMask) == 0)
@@ -527,24 +527,38 @@ private:
     _wheels[entry->wheelLevel].buckets[entry->bucketIndex].unlink(entry);
   }
 
-  /// \brief Collect ALL entries from the current bucket for firing.
-  /// All entries in a level-0 bucket are due to fire when that bucket's
-  /// tick arrives — the deadline check is a safety net but should not
-  /// skip entries that were placed correctly. Entries whose deadline
-  /// is slightly in the future (placed between ticks) still fire —
-  /// this matches the tick-granularity contract.
-  void collectFromBucket(Bucket& bucket,
+  /// \brief Collect the entries of the current level-0 bucket for firing.
+  /// Entries whose deadline is at most one tick in the future (placed
+  /// between ticks) fire — this matches the tick-granularity contract.
+  /// An entry that is further from its deadline is re-inserted instead:
+  /// during drift catch-up several buckets are processed with the same
+  /// `now`, so an entry scheduled while the tick thread was stalled can
+  /// sit in a bucket that is reached long before its deadline.
+  void collectFromBucket(Bucket& bucket, TimePoint now,
                          std::vector<std::pair<TimerId, Callback>>& toFire)
   {
-    auto* entry = bucket.head;
-    while (entry)
+    // Detach first (a re-insert below must not be walked again in this pass).
+    std::vector<TimerEntry*> pending;
+    for (auto* e = bucket.head; e != nullptr;)
     {
-      auto* next = entry->next;
-      bucket.unlink(entry);
+      auto* next = e->next;
+      bucket.unlink(e);
+      pending.push_back(e);
+      e = next;
+    }
+
+    for (auto* entry : pending)
+    {
+      // More than one tick early: not due yet, push it forward.
+      if (entry->deadline - now > _tickDuration)
+      {
+        insertEntry(entry, std::chrono::duration_cast<std::chrono::milliseconds>(
+                             entry->deadline - now));
+        continue;
+      }
       _entryMap.erase(entry->id);
       toFire.emplace_back(entry->id, std::move(entry->callback));
       freeEntry(entry);
-      entry = next;
     }
   }
 
